@@ -14,6 +14,7 @@ static THROTTLED: AtomicU64 = AtomicU64::new(0);
 static WAITS: AtomicU64 = AtomicU64::new(0);
 static POINTS_WITH_LEAD: AtomicU64 = AtomicU64::new(0);
 static SPECLINK_PINGS: AtomicU64 = AtomicU64::new(0);
+static AFTER_DROP: AtomicU64 = AtomicU64::new(0);
 
 fn v(kind: &str, node: usize, round: i32, detail: String) -> Violation {
     Violation { prop: "C15", kind: kind.to_owned(), detail, round, node }
@@ -64,10 +65,36 @@ fn judge_spectator_link(scn: &Scenario, res: &ExecResult) -> Vec<Violation> {
     out
 }
 
+/// A remote the session was ahead of drops out: the estimate must come back to the lead over
+/// the peers that are left (zero here), and the advice must stop.
+fn judge_after_drop(scn: &Scenario, res: &ExecResult) -> Vec<Violation> {
+    let mut out = Vec::new();
+    let nt = &res.nodes[0];
+    if nt.crashed.is_some() {
+        return out;
+    }
+    let Some(disc_round) = nt.events.iter().find(|e| matches!(e.2, Ev::Disconnected { .. })).map(|e| e.0).or_else(|| scn.script.iter().find(|i| matches!(i.action, Action::Disconnect { .. })).map(|i| i.round)) else { return out };
+    let Some(last) = nt.calls.last() else { return out };
+    if last.round < disc_round + 150 {
+        return out;
+    }
+    AFTER_DROP.fetch_add(1, Ordering::Relaxed);
+    if last.ahead.abs() > 1 {
+        out.push(v("frames-ahead-wrong", 0, last.round, format!("{} rounds after the remote it was ahead of was disconnected (round {disc_round}), with every remaining peer level, frames_ahead() is {}", last.round - disc_round, last.ahead)));
+    }
+    if let Some(e) = nt.events.iter().find(|e| matches!(e.2, Ev::Wait { .. }) && e.0 > disc_round + 70) {
+        out.push(v("wait-recommendation-wrong", 0, e.0, format!("{:?} in round {}, {} rounds after the remote the session was ahead of was disconnected", e.2, e.0, e.0 - disc_round)));
+    }
+    out
+}
+
 pub fn judge(scn: &Scenario, res: &ExecResult, _b: Option<&ExecResult>) -> Vec<Violation> {
     let mut out = Vec::new();
     if scn.stats_spectator {
         return judge_spectator_link(scn, res);
+    }
+    if scn.name.starts_with("c15-drop") {
+        return judge_after_drop(scn, res);
     }
     let (a, b) = (&res.nodes[0], &res.nodes[1]);
     if a.crashed.is_some() || b.crashed.is_some() {
@@ -371,6 +398,32 @@ pub fn c15() -> i32 {
             }
         }
     }
+    // the remote a session is ahead of drops out (dies, or is disconnected explicitly); with
+    // three peers the other remote runs level
+    for (tp, lead) in [("1+1", 5i32), ("1+1+1", 4), ("1+1+1", 7)] {
+        for explicit in [false, true] {
+            let mut s = base_scn("c15-drop", tp, 12, 0, false, Pred::RepeatLast, Program::Changing, 1);
+            for p in s.peers.iter_mut() {
+                p.notify_ms = 100;
+                p.timeout_ms = 300;
+            }
+            let victim = s.peers.len() - 1;
+            for i in 0..lead {
+                s.scripted_stalls.push((victim, 2 + i));
+            }
+            let h = s.peers[victim].locals[0];
+            if explicit && s.peers.len() == 2 {
+                s.script.push(ScriptItem { round: 200, node: 0, action: Action::Disconnect { handle: h } });
+            } else {
+                s.script.push(ScriptItem { round: 200, node: victim, action: Action::Die });
+            }
+            s.name = format!("{} fps=60 lead={lead} over the last peer, which drops at round 200 (explicit={explicit})", s.name);
+            s.horizon = 0;
+            s.probe = 480;
+            s.checks = CK_C02 | CK_STATS;
+            scns.push(s);
+        }
+    }
     // errors before numbers
     for fps in [60usize, 30] {
         for lat in [0, 2] {
@@ -400,6 +453,7 @@ pub fn c15() -> i32 {
     rep.coverage.insert("grid_points_whose_realised_lead_differs_from_the_intended_or_is_not_constant".into(), json!(thr));
     rep.coverage.insert("grid_points_judged_with_nonzero_constant_lead".into(), json!(with_lead));
     rep.coverage.insert("wait_recommendations_checked".into(), json!(waits));
+    rep.coverage.insert("sessions_judged_after_the_remote_they_led_dropped".into(), json!(AFTER_DROP.load(Ordering::Relaxed)));
     let sp = SPECLINK_PINGS.load(Ordering::Relaxed);
     rep.coverage.insert("host_spectator_link_pings_checked".into(), json!(sp));
     if sp == 0 {
